@@ -32,7 +32,7 @@ func profileFor(prop string) (Profile, []Monitor) {
 	case "C11":
 		return Profile{SmallStacks: true, Probes: 1}, []Monitor{&offerMon{}}
 	case "C12":
-		return Profile{Hostile: true, SmallStacks: true, Probes: 1}, []Monitor{&raiseMon{}}
+		return Profile{Hostile: true, SmallStacks: true, Probes: 1, TryRaises: true}, []Monitor{&raiseMon{}}
 	case "C13":
 		return Profile{SmallStacks: true}, []Monitor{&forcedMon{}}
 	case "C14":
